@@ -59,12 +59,23 @@ RULE = (
     "CFGBuilder output interpreted by exec'ing the real block statements vs CPython running the source (value + call "
     "trace); real CFG structure vs Lean `build`; Lean `run` (py / cfg) vs CPython / real-CFG interpretation; structural "
     "facts on the real CFG. non-trivial = the program has a branch, loop or lifted expression and at least one external "
-    "call; distinct by (source, rn, arguments)"
+    "call; distinct by (source, rn, arguments). End-to-end phase (tie_hugr_exec, c03_hugr.py): typed multi-function programs "
+    "(reporting helpers; int / bool / float / struct / tuple / array parameters; struct and tuple values whose different leaves stay "
+    "alive on different branches, tuple unpacking and swaps, array unpacking with a starred target in any position, `for v in xs`, "
+    "subscript reads / writes, the f9e33c1 / 7c8aeda / 9df9073 expression shapes; corpus/c03/hugr_exec.json first) are checked and "
+    "lowered by the real compiler, the lowered HUGR is interpreted under two schedules per dataflow region and compared with CPython "
+    "running the same source; case = (function, argument tuple, schedule), non-trivial = executed, has a branch or loop and reports "
+    "at least one result"
 )
 ASSUMPTIONS = [
     "the real CFG is given meaning by exec'ing the real block statements (ast nodes as left by the builder) in CPython and "
     "following branch_pred / successors[1 if pred else 0]; MakeIter/IterNext of the for-template are interpreted as "
-    "iter()/next() with an Option-like result; lowering of blocks to HUGR and HUGR execution are not covered here",
+    "iter()/next() with an Option-like result; lowering of blocks to HUGR and HUGR execution are not covered by this tie (they "
+    "are sampled by the end-to-end phase)",
+    "end-to-end phase: the meaning of a lowered HUGR is given by the interpreter of c03_hugr.py (CFG / DataflowBlock / Conditional / "
+    "TailLoop / Call / sums and tuples / 64-bit int, float and tket.bool arithmetic / borrow_array / tket.result), any topological "
+    "order of value and order edges being a legal execution of a dataflow region (two are tried); CPython runs in which an arithmetic "
+    "result leaves +-2^62, which raise or exceed the step budget are skipped",
     "external functions f,g,h,k (int) and c,p,q (bool) are deterministic functions of (name, arguments, number of calls so far); "
     "they record every call, so both value flow and call order are observable",
     "integers are unbounded on all sides (the 64-bit reduction of the statement is a property of the arithmetic lowering, C13/C16)",
@@ -79,7 +90,9 @@ UNMODELLED = [
     "is inside the model: a model `err unsupported` is reported as a broken correspondence)",
     "subscript / attribute assignment targets in the Lean model (the target-operand ordering of visit_Assign/AugAssign is covered by "
     "oracle-only corpus programs interpreted on the real CFG against CPython, and by typed probes through check() + lowering)",
-    "compile_bb / block wiring (row_agreement, return_vars_order of compiler/cfg_compiler.py) and HUGR execution",
+    "compile_bb / block wiring (row_agreement, return_vars_order of compiler/cfg_compiler.py) and HUGR execution in the Lean model "
+    "of the builder (wiring has its own model; statement / expression lowering is only sampled end to end: tie_hugr_exec runs the "
+    "lowered HUGR of generated typed programs against CPython, ops outside its interpreter are counted as unsupported)",
     "64-bit wrap-around (values are unbounded ints); the iterator protocol is executed with the semantics of range (C18)",
 ]
 MANIFEST = {
@@ -101,7 +114,9 @@ MANIFEST = {
     "successors, dummy successors, reachability, errors) against the model's, the real CFG is interpreted and compared with CPython "
     "running the same source, and the model's two semantics are compared with CPython and with the real-CFG interpretation; "
     "typed programs are lowered by the real compiler and compile_bb's actual input/output place order is recovered and compared "
-    "with the wiring model and, edge by edge, with the successor's inputs.",
+    "with the wiring model and, edge by edge, with the successor's inputs; end to end (sampling, no theorem): generated typed "
+    "programs are checked and lowered by the real compiler and the lowered HUGR, interpreted under two schedules, must return the "
+    "same value and report the same result sequence as CPython running the same source.",
     "level_note": "Trusted: Lean kernel + propext/Classical.choice/Quot.sound; the reading of a CFG (exec of block statements, "
     "successors[1] on a true predicate); correspondence is sampling. D9 (lifted sub-expressions hoisted before left siblings, "
     "middle operand of a chained comparison evaluated twice) is fixed in /repo (f9e33c1, 7c8aeda); its witnesses are regression "
@@ -1511,6 +1526,7 @@ def tie(ctx, profile=Profile):
     if profile.pid == "C03":
         tie_wiring(ctx)
         tie_probes(ctx)
+        tie_hugr_exec(ctx, "C03")
 
 
 # ============================================================================ wiring (compile_bb): second phase of C03's tie
@@ -2135,6 +2151,19 @@ def tie_wiring(ctx, n=None, use_model=True):
     st["wall_s"] = round(time.time() - t0, 2)
     ctx.extra["wiring"] = st
     return st
+
+
+# ============================================================================ end-to-end execution (c03_hugr.py): lowered HUGR vs CPython
+
+
+def tie_hugr_exec(ctx, pid="C03", n=None, budget_s=None):
+    """typed programs (corpus/<pid>/hugr_exec.json first, then c03_hugr.HGen) are checked and lowered by the real compiler,
+    the lowered HUGR is interpreted under two schedules and compared with CPython running the same source: returned value +
+    sequence of result() reports.  A disagreement / an ill-formed HUGR is a failing input (`input:<source>|<function>|<args>`)"""
+    sys.path.insert(0, os.path.dirname(os.path.abspath(__file__)))
+    import c03_hugr
+
+    return c03_hugr.tie_hugr_exec(ctx, pid, n=n, budget_s=budget_s)
 
 
 # ============================================================================ typed probes (T-obj): expressions in assignment targets
@@ -2908,6 +2937,18 @@ def search(ctx, why, profile=Profile):
     rng = ctx.rng
     found = 0
     tried = 0
+    # first the end-to-end oracle (typed programs through check + lowering, c03_hugr.py): it also sees what the compiler does
+    # after the CFG builder (block wiring, unpacking assignments, order edges), which the untyped search below cannot
+    try:
+        sys.path.insert(0, os.path.dirname(os.path.abspath(__file__)))
+        import c03_hugr
+
+        if c03_hugr.search_hugr_exec(ctx, profile.pid):
+            ctx.extra["search"] = {"why": [w[:200] for w in why][:3], "programs_tried": 0, "failing_inputs_found": 0,
+                                   "found_by": "hugr_exec_search"}
+            return
+    except Exception as e:  # noqa: BLE001
+        ctx.extra["hugr_exec_search_error"] = type(e).__name__ + ": " + str(e)[:200]
     for k in range(ctx.n(4000, 40000)):
         src, rn = gen_program(rng, profile.gen, small=(k % 4 != 0), d9=(k % 2 == 0))
         inputs = gen_inputs(rng, 3)
